@@ -10,6 +10,7 @@
    Bound used throughout for the conversion: n <= 32 (the width of a Cube mask). *)
 From Coq Require Import List NArith Bool Sorted.
 From V Require Import Spec.TwoLevelCost Checkers.Check Proofs.CheckSoundTwoLevel Proofs.CheckSoundCube.   (* the extracted checkers and their soundness proofs, pinned at the end of this file *)
+From V Require Proofs.ExprsTie4.   (* the bodies of sop.rs / esop.rs / soes.rs (and the remaining functions of cube.rs / ecube.rs), regenerated from the Rust source, equal the model's *)
 From V Require Import Proofs.Order.
 From V Require Import Base.Res Model.Kernels Model.TwoLevel Spec.Bfun Proofs.EsopProofs.
 Import ListNotations.
